@@ -167,12 +167,33 @@ def run(ctx, widen=False):
             ctx.violation("failing-input", "minimize: out-of-bounds start and ValueError do not coincide", inp, status, "ValueError" if outside else "accepted")
             return
         if status == "ok":
-            import sympy
-
-            e = sympy.sympify(expr)
             costf = lambda v: float(B.value_of(B.substitute(B.as_expression(expr), {"x": v})))  # noqa: E731
             if not clauses(ctx, out, x0, (lo_f, hi_f), costf, "minimize", inp):
                 return
+        # history: ONE settings dictionary shared by several minimize calls (a sweep over cost expressions); every call must respect
+        # the bounds and the start it was given
+        if i % 2 == 0:
+            shared = dict(kw)
+            exprs = [expr, rng.choice(["(x + 3)**2", "(x - 5)**2 + x", "x**2"]), expr]
+            for j, ex in enumerate(exprs):
+                inp2 = {"expression": ex, "param": "x", "optimizer_kwargs": kw, "history": f"call {j + 1} of {len(exprs)} with the same optimizer_kwargs dict object; expressions {exprs}"}
+                try:
+                    out2 = minimize(ex, "x", optimizer_kwargs=shared)
+                    st2 = "ok"
+                except (RuntimeError, ValueError) as e2:
+                    out2, st2 = None, type(e2).__name__
+                except Exception as e2:
+                    ctx.violation("failing-input", f"minimize raised {type(e2).__name__} on a repeated call", inp2, str(e2)[:200], "result, RuntimeError or ValueError")
+                    return
+                ctx.stats["minimize_shared_dict_calls"] += 1
+                if outside != (st2 == "ValueError"):
+                    ctx.violation("failing-input", "minimize with a shared settings dict: out-of-bounds start and ValueError do not coincide", inp2, st2,
+                                  "ValueError" if outside else "accepted")
+                    return
+                if st2 == "ok":
+                    cf2 = lambda v, ex=ex: float(B.value_of(B.substitute(B.as_expression(ex), {"x": v})))  # noqa: E731
+                    if not clauses(ctx, out2, x0, (lo_f, hi_f), cf2, "minimize (shared settings dict)", inp2):
+                        return
     # correspondence with the Lean Float model (bit-for-bit)
     if lines:
         try:
